@@ -419,7 +419,7 @@ def dict_struct_mutants(T, muts):
             continue
         out.append((kind, body))
     off = (muts[0][1] if muts else 0) % len(DOC_NASTY)
-    window = [DOC_NASTY[(off + j) % len(DOC_NASTY)] for j in range(SWEEP)]
+    window = [DOC_NASTY[(off + j) % len(DOC_NASTY)] for j in range(SWEEP)] + [b"\xff\xfe", "c3\u00e9a"]
     leafp = [p for p in paths if len(p) and not isinstance(c04._get(doc, p), (dict, list))][:10]
     for p in leafp:
         for nasty in window:
